@@ -1,0 +1,19 @@
+//go:build verif
+
+package s2
+
+import "github.com/golang/geo/s1"
+
+// Thin accessors for the verification harness (property C19: interval, rectangle and cap
+// algebra against point membership). Add-only; no behaviour of the package changes.
+
+// VerifC19RectExpanded exposes Rect.expanded.
+func VerifC19RectExpanded(r Rect, margin LatLng) Rect { return r.expanded(margin) }
+
+// VerifC19CapRaw builds a Cap from its two fields without any normalisation.
+func VerifC19CapRaw(center Point, radius float64) Cap {
+	return Cap{center: center, radius: s1.ChordAngle(radius)}
+}
+
+// VerifC19CapFields returns the two fields of a Cap.
+func VerifC19CapFields(c Cap) (center Point, radius float64) { return c.center, float64(c.radius) }
